@@ -242,3 +242,47 @@ Theorem C01_ack_parse_all_status_bytes : forall arc s payload,
   /\ radio_ack_of_usb (Some (s :: payload)) = RAck (Z.odd s) (if s =? 0 then [] else payload).
 Proof. exact parse_ack_all_status. Qed.
 Print Assumptions C01_ack_parse_all_status_bytes.
+
+(* ===================== round 3: several sessions on one RadioDriver object ===================== *)
+
+(* What a new start-up (restart() after pause(), or connect() after close()) begins from: a new thread with its
+   __init__ values and fresh locals; the queues survive a restart, not a reconnect; needs_resending keeps its
+   old value until the new start-up loop has run. *)
+Theorem C01_reopen_state : forall N how w,
+  let h := w_h (reopen_world N how w) in
+  h_safe h = false /\ h_up h = false /\ h_down h = true /\ h_out h = [255] /\ h_retry h = N
+  /\ h_needs h = h_needs (w_h w) /\ h_errs h = h_errs (w_h w)
+  /\ h_outq h = match how with Restart => h_outq (w_h w) | Reconnect => None end
+  /\ h_inq h = match how with Restart => h_inq (w_h w) | Reconnect => [] end
+  /\ w_p (reopen_world N how w) = w_p w /\ w_last (reopen_world N how w) = RNone.
+Proof. exact reopen_state. Qed.
+Print Assumptions C01_reopen_state.
+
+(* Safelink is used only if the peer confirmed it during THAT start-up: for a session started from the world w
+   any earlier sessions left behind (w arbitrary: whatever mode, flags, queues), safelink mode <=> the last of
+   its own at most 10 attempts was answered by exactly ff 05 01; needs_resending is the negation; without
+   confirmation the frames go out untouched. *)
+Theorem C01_safelink_per_session : forall N w how negs evs,
+  let rs := snd (boot_loop 10 negs (w_p w)) in
+  let h := w_h (next_session N w (how, negs, evs)) in
+  (length rs <= 10)%nat
+  /\ (h_safe h = true <->
+      exists rs0 a, rs = rs0 ++ [RAck a enable_frame] /\ forall x, In x rs0 -> confirms x = false)
+  /\ h_needs h = negb (h_safe h)
+  /\ (h_safe h = false -> host_frame h = h_out h).
+Proof. exact safelink_per_session. Qed.
+Print Assumptions C01_safelink_per_session.
+
+(* The same over session lists: the mode of the last session of a history depends on the answers to its own
+   start-up only (given the peer state the earlier sessions left). *)
+Theorem C01_safelink_per_session_history : forall N p0 negs evs more how negs' evs',
+  let before := history N p0 negs evs more in
+  let rs := snd (boot_loop 10 negs' (w_p before)) in
+  let h := w_h (history N p0 negs evs (more ++ [(how, negs', evs')])) in
+  (length rs <= 10)%nat
+  /\ (h_safe h = true <->
+      exists rs0 a, rs = rs0 ++ [RAck a enable_frame] /\ forall x, In x rs0 -> confirms x = false)
+  /\ h_needs h = negb (h_safe h)
+  /\ (h_safe h = false -> host_frame h = h_out h).
+Proof. exact safelink_per_session_history. Qed.
+Print Assumptions C01_safelink_per_session_history.
